@@ -193,6 +193,13 @@ def decide(pid, prop, tier, seed, results, extra, t0, args):
             elif ob["verdict"] == "sat" and ob["closed"] and lock and ob["name"] in lock.get("discharged", []):
                 rec["how"] = "no-failing-input-found"
                 violations.append(rec)
+            elif ob["verdict"] == "sat" and ob["closed"] and lock and ob["kind"] in ("post", "post-exc") and any(n.startswith(r["contract"] + "/") for n in lock.get("discharged", [])):
+                # an obligation that did not exist on the pinned tree because its path did not exist there (a new
+                # normal return or a new exception of a function whose contract is locked): the contract's
+                # postconditions bind every path, so a refuted one is a regression of that contract
+                rec["how"] = "no-failing-input-found"
+                rec["note"] = ((rec.get("note") or "") + " [obligation of a locked contract on a path that is new on this tree]").strip()
+                violations.append(rec)
             else:
                 undecided.append(rec)
 
